@@ -123,6 +123,9 @@ Proof.
   rewrite snowv_ks_from_length by apply snowv_init_ok. lia.
 Qed.
 
+Lemma nblocks16_ext (a b : bytes) : length a = length b -> nblocks16 a = nblocks16 b.
+Proof. unfold nblocks16. intros ->. reflexivity. Qed.
+
 Lemma nblocks16_covers l : length l <= 16 * nblocks16 l.
 Proof. unfold nblocks16. lia. Qed.
 
@@ -138,7 +141,7 @@ Proof.
   cbn [fst snd].
   assert (Hlen : length (xor_bytes pt ks) = length pt).
   { rewrite xor_bytes_length, Hks. pose proof (nblocks16_covers pt). lia. }
-  assert (Enb : nblocks16 (xor_bytes pt ks) = nblocks16 pt) by (unfold nblocks16; rewrite Hlen; reflexivity).
+  assert (Enb : nblocks16 (xor_bytes pt ks) = nblocks16 pt) by (apply nblocks16_ext, Hlen).
   rewrite Enb, Ec.
   rewrite xor_bytes_invol by (rewrite Hks; apply nblocks16_covers). reflexivity.
 Qed.
@@ -153,6 +156,6 @@ Proof.
                  = length msg).
   { rewrite xor_bytes_length, Hl. pose proof (nblocks16_covers msg). lia. }
   assert (Enb : nblocks16 (xor_bytes msg (snowv_ks_from (nblocks16 msg) (snowv_init false key iv)))
-                = nblocks16 msg) by (unfold nblocks16; rewrite Hlen; reflexivity).
+                = nblocks16 msg) by (apply nblocks16_ext, Hlen).
   rewrite Enb. apply xor_bytes_invol. rewrite Hl. apply nblocks16_covers.
 Qed.
